@@ -355,3 +355,33 @@ fn minio_delete_replication() {
     let val = deserialize::<s3s::dto::ReplicationConfiguration>(xml.as_bytes()).unwrap();
     test_serde(&val);
 }
+
+/// Only white space may stand outside the root element
+#[test]
+fn character_data_outside_root() {
+    let doc = "<Tagging><TagSet><Tag><Key>k</Key><Value>v</Value></Tag></TagSet></Tagging>";
+
+    let padded = format!("\r\n\t {doc} \n");
+    let val = deserialize::<s3s::dto::Tagging>(padded.as_bytes()).unwrap();
+    assert_eq!(val.tag_set.len(), 1);
+
+    // text inside the root element is still ignored between elements
+    let inside = "<Tagging> a <TagSet> b </TagSet> c </Tagging>";
+    deserialize::<s3s::dto::Tagging>(inside.as_bytes()).unwrap();
+
+    let invalid = [
+        format!("junk{doc}"),
+        format!("{doc}junk"),
+        format!("&#32;{doc}"),
+        format!("<![CDATA[ ]]>{doc}"),
+        format!("{doc}<![CDATA[ ]]>"),
+        format!("<!-- comment -->{doc}<!-- comment -->junk"),
+    ];
+    for input in &invalid {
+        let ans = deserialize::<s3s::dto::Tagging>(input.as_bytes());
+        assert!(matches!(ans, Err(xml::DeError::InvalidContent)), "{input}");
+    }
+
+    let ans = deserialize::<s3s::dto::GetBucketLocationOutput>(b"<LocationConstraint>EU</LocationConstraint>junk");
+    assert!(matches!(ans, Err(xml::DeError::InvalidContent)));
+}
